@@ -619,6 +619,7 @@ func main() {
 	allow := flag.String("allow", "", "comma separated package paths (suffix /... allowed) whose functions are exported")
 	inits := flag.String("inits", "", "comma separated package path patterns whose init functions the executor runs")
 	debugPkgs := flag.String("debug", "", "comma separated package paths built with ssa.GlobalDebug")
+	modfile := flag.String("modfile", "", "alternative go.mod (go build -modfile) for the harness module")
 	flag.Parse()
 
 	cfg := &packages.Config{
@@ -626,6 +627,9 @@ func main() {
 		Dir:   *dir,
 		Tests: false,
 		Env:   append(os.Environ(), "GOFLAGS=-mod=mod", "GOPROXY=off", "GOSUMDB=off", "GOTOOLCHAIN=local"),
+	}
+	if *modfile != "" {
+		cfg.BuildFlags = append(cfg.BuildFlags, "-modfile="+*modfile)
 	}
 	if *overlayFile != "" {
 		data, err := os.ReadFile(*overlayFile)
